@@ -43,6 +43,7 @@ def subtree (sc : Scen) : Nat → Nat → List Nat
 
 structure St where
   dead : List Nat := []        -- actors stopped before Stop
+  orphan : List Nat := []      -- actors restarted after their stop completed: running, but outside the actor tree
   gdead : List Nat := []       -- grains deactivated before Stop (and not re-activated)
   rgate : List Nat := []       -- actors whose Receive gate is closed
   qgate : List Nat := []
@@ -62,7 +63,7 @@ def doOp (sc : Scen) (s : St) (op : String) : Option St :=
     if s.stopped then none else
     some { s with stopped := true, star := s.star || !s.busyG.isEmpty, res := "done" :: s.res }
   else if op = "after" then
-    let r := String.mk (List.replicate (n + sc.ngr) 'x')
+    let r := String.mk (((List.range n).map fun k => if s.orphan.contains k then 'o' else 'x') ++ List.replicate sc.ngr 'x')
     some { s with res := (if r = "" then "-" else r) :: s.res, star := s.star || !s.stopped }
   else if op = "burst" then
     -- a burst sends to every actor and every grain without waiting: every grain is (re-)activated
@@ -74,9 +75,24 @@ def doOp (sc : Scen) (s : St) (op : String) : Option St :=
   | _, _, _, some k =>
     if k < sc.ngr then some { s with qgate := s.qgate.erase k, busyG := s.busyG.erase k, res := "." :: s.res } else none
   | _, _, _, _ =>
+    match numArg op "R" "" with
+    | some k =>
+      -- PID.Restart: a stopped actor is re-initialised (its stopped descendants stay stopped); a running
+      -- one is stopped and re-initialised together with its running descendants: running either way
+      -- (restartSubtree re-attaches under the parent found in the tree; the death watch has removed a
+      --  stopped actor's node, the parent then defaults to NoSender and addOrAttachNode does nothing:
+      --  the actor runs again but is in nobody's subtree and not resolvable by name)
+      if k < n then
+        some { s with dead := s.dead.filter (· != k),
+                      orphan := if s.dead.contains k && !s.orphan.contains k then k :: s.orphan else s.orphan,
+                      res := "." :: s.res, star := s.star || s.stopped }
+      else none
+    | none =>
     match numArg op "t" "", numArg op "m" "", numArg op "k" "", numArg op "d" "" with
     | some k, _, _, _ =>
-      if k < n then some { s with res := (if s.dead.contains k || s.stopped then "dead" else "ok") :: s.res } else none
+      if k < n then
+        some { s with res := (if s.orphan.contains k then "ok" else if s.dead.contains k || s.stopped then "dead" else "ok") :: s.res }
+      else none
     | _, some k, _, _ =>
       if k < sc.ngr then
         -- a send (re-)activates a deactivated grain; while Stop is in progress the outcome is not modelled
@@ -84,7 +100,11 @@ def doOp (sc : Scen) (s : St) (op : String) : Option St :=
                       busyG := if s.qgate.contains k && !s.busyG.contains k then k :: s.busyG else s.busyG }
       else none
     | _, _, some k, _ =>
-      if k < n then some { s with dead := (subtree sc n k) ++ s.dead, res := "." :: s.res, star := s.star || s.stopped } else none
+      if k < n then
+        if s.orphan.contains k then some { s with res := "." :: s.res, star := s.star || s.stopped }
+        else some { s with dead := ((subtree sc n k).filter fun j => !s.orphan.contains j) ++ s.dead, res := "." :: s.res,
+                           star := s.star || s.stopped }
+      else none
     | _, _, _, some k =>
       if k < sc.ngr then some { s with gdead := (if s.gdead.contains k then s.gdead else k :: s.gdead), res := "." :: s.res, star := s.star || s.stopped || s.busyG.contains k } else none
     | _, _, _, _ => none
@@ -107,7 +127,7 @@ def model (line : String) : String :=
       | some s =>
         if s.star then "*" else
         let n := sc.parents.length
-        let f := forest sc (fun k => s.dead.contains k) (n + 1) (kidsOf sc none)
+        let f := forest sc (fun k => s.dead.contains k || s.orphan.contains k) (n + 1) (kidsOf sc none)
         let reached := if s.stopped then visited f else []
         let post := (List.range n).map fun k => s!"A{k}={if reached.contains k then 1 else 0}"
         let dea := (List.range sc.ngr).map fun k => s!"G{k}={if s.stopped && !s.gdead.contains k then 1 else 0}"
